@@ -848,9 +848,26 @@ func (p *pogsRun) runPrefilled(i uint64, rng *common.RNG) {
 		rec.Violate("pogs/insert-error/prefilled/"+tag, fmt.Sprintf("pogs.Insert into a pre-populated %s failed: %v", m.schema, ierr), i, "", input)
 		return
 	}
+	// If the active union member has no Go field, Insert only sets the
+	// discriminant and the shared slots keep whatever they held (not covered
+	// by the value): the accessors may then legitimately fail on them.
+	covered := true
+	if ti := infoOf(m.typ); ti.members != nil {
+		_, covered = ti.fields[member]
+	}
 	vc := &vctx{}
 	var v *V
-	if pn := common.Guard(func() { v = sh.view(vc, dst) }); pn != nil || len(vc.errs) > 0 {
+	if !covered {
+		rec.Count("prefilled_active_member_without_go_field", 1)
+		v = &V{K: kStruct, TypeName: m.schema, HasUnion: true}
+		if w, ok := infoOf(m.typ).whichOf(cl.Elem()); ok {
+			v.Disc = w
+		}
+		if got := dst.Uint16(0); got != v.Disc { // Z and Aircraft keep the discriminant at offset 0
+			rec.Violate("pogs/prefilled-dest/insert-vs-getter/"+m.schema+".Which", fmt.Sprintf("discriminant is %d after Insert of Which=%d", got, v.Disc), i, "", input)
+			return
+		}
+	} else if pn := common.Guard(func() { v = sh.view(vc, dst) }); pn != nil || len(vc.errs) > 0 {
 		rec.Violate("pogs/insert-unreadable/prefilled/"+tag, fmt.Sprintf("generated accessors fail on the destination after Insert: %v %v", vc.errs, pn), i, "", input)
 		return
 	}
